@@ -45,11 +45,12 @@ pub struct Model {
     pub porta: bool,
     pub sustain: bool,
     pub bend: Option<u16>,
+    pub edges_from_observed_gate: bool,
 }
 
 impl Model {
     pub fn new() -> Self {
-        Model { held: Vec::new(), note: 0, vel: 0, prio: 0, retrig: false, rising: false, falling: false, cc: [None; 5], porta: true, sustain: true, bend: None }
+        Model { held: Vec::new(), note: 0, vel: 0, prio: 0, retrig: false, rising: false, falling: false, cc: [None; 5], porta: true, sustain: true, bend: None, edges_from_observed_gate: false }
     }
     fn select(&self) -> u8 {
         match self.prio {
@@ -66,16 +67,35 @@ impl Model {
         self.vel = v;
         self.held.push(n);
         self.note = self.select();
-        if !was || self.retrig {
-            self.rising = true;
+        if !self.edges_from_observed_gate {
+            if !was || self.retrig {
+                self.rising = true;
+            }
+            self.falling = false;
         }
-        self.falling = false;
+    }
+    /// C05's latches defined on the gate() actually observed before and after a message (independent of the
+    /// outstanding-note model, hence also meaningful beyond the 32 notes the receiver remembers)
+    pub fn edges_observed(&mut self, gate_before: bool, gate_after: bool, is_note_on: bool) {
+        if !self.edges_from_observed_gate {
+            return;
+        }
+        if is_note_on {
+            if (!gate_before && gate_after) || self.retrig {
+                self.rising = true;
+            }
+            self.falling = false;
+        }
+        if gate_before && !gate_after {
+            self.falling = true;
+            self.rising = false;
+        }
     }
     pub fn note_off(&mut self, n: u8) {
         let was = self.gate();
         self.held.retain(|x| *x != n);
         if self.held.is_empty() {
-            if was {
+            if was && !self.edges_from_observed_gate {
                 self.falling = true;
                 self.rising = false;
             }
@@ -86,7 +106,7 @@ impl Model {
     pub fn all_off(&mut self) {
         let was = self.gate();
         self.held.clear();
-        if was {
+        if was && !self.edges_from_observed_gate {
             self.falling = true;
             self.rising = false;
         }
@@ -205,6 +225,11 @@ impl MidiM {
     pub fn new(ch: u8, alpha: Alphabet) -> Self {
         MidiM { rx: MonoMidiReceiver::new(ch), m: Model::new(), ch, alpha: std::sync::Arc::new(alpha) }
     }
+    /// C05 variant: the edge latches of the reference follow the observed gate()
+    pub fn observed_edges(mut self) -> Self {
+        self.m.edges_from_observed_gate = true;
+        self
+    }
     fn send(&mut self, bytes: &[u8]) {
         for b in bytes {
             self.rx.parse(*b);
@@ -272,6 +297,7 @@ impl Machine for MidiM {
         let fch = (ch + 1) % 16;
         let mut fnd: Vec<Finding> = Vec::new();
         let gate_before = self.m.gate();
+        let real_gate_before = self.rx.gate();
         match *op {
             MOp::On(n, v) => {
                 if self.m.held.contains(&n) {
@@ -383,6 +409,9 @@ impl Machine for MidiM {
                 out.count("foreign_channel_messages");
             }
         }
+        if !matches!(op, MOp::PollR | MOp::PollF) {
+            self.m.edges_observed(real_gate_before, self.rx.gate(), matches!(op, MOp::On(_, _)));
+        }
         compare(&self.rx, &self.m, &mut fnd);
         out.obs = (self.rx.gate() as u64) << 8 | self.rx.note_num() as u64;
         for (p, c, d) in fnd {
@@ -397,7 +426,7 @@ impl Machine for MidiM {
         for c in self.m.cc {
             h.word(c.map(|v| v as u64 + 1).unwrap_or(0));
         }
-        h.word(self.m.bend.map(|v| v as u64 + 1).unwrap_or(0));
+        h.word(self.m.bend.map(|v| v as u64 + 1).unwrap_or(0) | (self.m.edges_from_observed_gate as u64) << 40);
         h.finish()
     }
     fn fork(&self) -> Self {
@@ -577,6 +606,18 @@ pub fn c05(ctx: &Ctx) -> Report {
         run_m(ctx, &mut rep, 0, polls(4), "notes {5,64,127} x velocities {1,127}, K=4, with polls", p);
         run_m(ctx, &mut rep, 15, Alphabet { notes: vec![60], vels: vec![100], ..polls(8) }, "1 note, K=8, with polls", p);
         run_m(ctx, &mut rep, 4, Alphabet { notes: vec![60], vels: vec![100], edge_note: Some(40), modes: false, ..polls(32) }, "capacity K=32 with a second note as oldest / newest entry, with polls", p);
+    }
+    // the same latches defined on the observed gate(), which stays meaningful when more keys are down than the
+    // receiver remembers (here up to 36): retrigger mode switch, polls, a second note number at both ends
+    {
+        let a = Alphabet { notes: vec![60], vels: vec![100], edge_note: Some(40), modes: false, ..polls(36) };
+        let m = MidiM::new(2, a.clone()).observed_edges();
+        let r = explore(m, &ExploreCfg { max_depth: None, state_cap: 30_000_000, threads: ctx.threads, label: "edges relative to the observed gate, up to 36 outstanding note-ons".into() }, &mut rep, p);
+        if !r.fixpoint && !r.cap_hit {
+            rep.machinery("observed-gate exploration ended without a fixpoint".into());
+        }
+        let a2 = Alphabet { modes: true, ..polls(3) };
+        explore(MidiM::new(0, a2).observed_edges(), &ExploreCfg { max_depth: None, state_cap: 30_000_000, threads: ctx.threads, label: "edges relative to the observed gate, main alphabet K=3 with mode switches".into() }, &mut rep, p);
     }
     enumerate_sequences(&MidiM::new(0, Alphabet { notes: vec![5, 64], vels: vec![100], modes: false, foreign: false, ..polls(4) }), if ctx.tier.is_thorough() { 7 } else { 6 }, ctx, &mut rep, p, "all message / poll sequences, no state matching");
     rep.nontrivial = rep.counters.get("rising_polls_expected_true").copied().unwrap_or(0) + rep.counters.get("falling_polls_expected_true").copied().unwrap_or(0);
